@@ -26,6 +26,7 @@ var checks = map[string][]HarnessSpec{
 	},
 	"C06": {
 		{Name: "verifC06History", Pkg: ".", Labels: []string{"setup", "retry-ok", "retry-abort", "done"}},
+		{Name: "verifC06Concurrent", Pkg: ".", Labels: []string{"concurrent-retry"}},
 	},
 	"C07": {
 		{Name: "verifC07ReadPipe", Pkg: ".", Labels: []string{"drained"}},
